@@ -120,6 +120,7 @@ ClauseNames ==
     "C06_final",
     "C15_final",
     "C08_serial",
+    "C01_nowait",
     "C03_readable", "C03_only_own_missing", "C03_continues", "C04_all_or_nothing",
     "C18_where", "C18_same_store", "C18_lands", "C18_reads_work", "C18_lock", "C18_init",
     "C19_all_once", "C19_active_once", "C19_ready_exact", "C19_known_rows", "C19_tree", "C19_summary", "C19_empty", "C19_fits", "C19_idcol", "C19_utf8",
@@ -197,6 +198,7 @@ Eval(n, o) ==
     [] n = "C06_final" -> Cn!C06_final(o)
     [] n = "C15_final" -> Cn!C15_final(o)
     [] n = "C08_serial" -> Cn!C08_serial(o)
+    [] n = "C01_nowait" -> Cn!C01_nowait(o)
     [] n = "C03_readable" -> Cn!C03_readable(o)
     [] n = "C03_only_own_missing" -> Cn!C03_only_own_missing(o)
     [] n = "C03_continues" -> Cn!C03_continues(o)
@@ -245,6 +247,7 @@ ConcNames == {"C01_serial", "C01_no_double", "C01_outcomes", "C01_winner_holds",
               "C06_final",
               "C15_final",
               "C08_serial",
+              "C01_nowait",
               "C03_readable", "C03_only_own_missing", "C03_continues", "C04_all_or_nothing"}
 TextNames == {"C17_overlimit", "C12_file_total", "C12_file_names_line", "C12_file_shows", "C12_file_deterministic", "C12_file_pure", "C19_all_once", "C19_active_once", "C19_ready_exact", "C19_known_rows", "C19_tree", "C19_summary", "C19_empty", "C19_fits", "C19_idcol", "C19_utf8", "C17_roundtrip", "C17_stays", "C17_accepted", "C18_where", "C18_same_store", "C18_lands", "C18_reads_work", "C18_lock", "C18_init"}
 Wanted(r) == IF "only" \in DOMAIN r THEN ToSet(r.only) \cap ClauseNames ELSE ClauseNames \ (ConcNames \cup TextNames)
